@@ -3,6 +3,7 @@
 -/
 import PsutilModel.Proofs.C01Step
 namespace Psutil.C01
+variable {nt : Bool}
 open Spec
 
 /-! ### shape of the effects (any configuration) -/
@@ -100,7 +101,7 @@ theorem guardOf_good {c : Cfg} (hg : c.Good) (kind : SetKind) : guardOf c kind =
 
 /-- an effect is produced only for the live incarnation, under the object's PID; signals never to PID 0 -/
 theorem method_eff_ok {c : Cfg} (hg : c.Good) {k : Kernel} {ps : Ps} {B : Nat} {o : PObj}
-    (hb : ps.bootTime = some B) (hnz : B ≠ 0) (hok : ObjOK c.clk k B o) {call : Call} {r : MRes}
+    (hb : ps.bootTime = some B) (hnz : BtOK c.createNoneTest B) (hok : ObjOK c.clk k B o) {call : Call} {r : MRes}
     (hm : method c k ps o call = some r) {e : EffKind × Int × List Int × Option Nat × Option Errno} (he : r.eff = some e) :
     e.2.1 = (o.pid : Int) ∧ e.2.2.2.1 = some o.ghost ∧ (e.1 = .kill → 0 < e.2.1) := by
   cases hec : isEffectCall call with
@@ -127,7 +128,7 @@ theorem method_eff_ok {c : Cfg} (hg : c.Good) {k : Kernel} {ps : Ps} {B : Nat} {
 
 /-- a signal / setter call through an object whose incarnation lost the PID: NoSuchProcess, no effect -/
 theorem method_refuses {c : Cfg} (hg : c.Good) {k : Kernel} {ps : Ps} {B : Nat} {o : PObj}
-    (hb : ps.bootTime = some B) (hnz : B ≠ 0) (hok : ObjOK c.clk k B o) {call : Call} {r : MRes}
+    (hb : ps.bootTime = some B) (hnz : BtOK c.createNoneTest B) (hok : ObjOK c.clk k B o) {call : Call} {r : MRes}
     (hm : method c k ps o call = some r) (hec : isEffectCall call = true)
     (hdead : k.owner o.pid ≠ some o.ghost) :
     r.eff = none ∧ r.out = .exc (.noSuchProcess o.pid) := by
@@ -175,7 +176,7 @@ theorem ObjsExt.set {a : List PObj} {i : Nat} {o o' : PObj} (ho : a[i]? = some o
     exact ⟨o', List.getElem?_set_self hlt, he⟩
   · exact ⟨x, by rw [List.getElem?_set_ne hij]; exact h, Evolves.refl x⟩
 
-theorem step_ext {c : Cfg} (hc : c.BootGood) (s : St) (ev : Ev) (h : Inv c.clk s) :
+theorem step_ext {c : Cfg} (hc : c.BootGood) (s : St) (ev : Ev) (h : Inv c.createNoneTest c.clk s) :
     ObjsExt s.ps.objs (step c s ev).1.ps.objs := by
   cases ev with
   | k e => exact ObjsExt.refl _
@@ -208,7 +209,7 @@ theorem step_ext {c : Cfg} (hc : c.BootGood) (s : St) (ev : Ev) (h : Inv c.clk s
       · exact ObjsExt.refl _
       · split <;> exact ObjsExt.refl _
 
-theorem run_ext {c : Cfg} (hc : c.BootGood) (h : List Ev) : ∀ (s : St), HistOK h → Inv c.clk s →
+theorem run_ext {c : Cfg} (hc : c.BootGood) (h : List Ev) : ∀ (s : St), HistOK c.createNoneTest h → Inv c.createNoneTest c.clk s →
     ObjsExt s.ps.objs (run c s h).ps.objs := by
   induction h with
   | nil => intro s _ _; exact ObjsExt.refl _
@@ -224,7 +225,7 @@ theorem EffOK.mono {a b : List PObj} (hext : ObjsExt a b) {e : Eff} (h : EffOK a
 
 def LogOK (s : St) : Prop := ∀ e ∈ s.log, EffOK s.ps.objs e
 
-theorem step_log {c : Cfg} (hg : c.Good) (s : St) (ev : Ev) (h : Inv c.clk s) (hl : LogOK s) :
+theorem step_log {c : Cfg} (hg : c.Good) (s : St) (ev : Ev) (h : Inv c.createNoneTest c.clk s) (hl : LogOK s) :
     LogOK (step c s ev).1 := by
   have hext := step_ext hg.toBootGood s ev h
   have hold : ∀ e ∈ s.log, EffOK (step c s ev).1.ps.objs e := fun e he => EffOK.mono hext (hl e he)
@@ -260,7 +261,7 @@ theorem step_log {c : Cfg} (hg : c.Good) (s : St) (ev : Ev) (h : Inv c.clk s) (h
             · rw [hevo.ghost]; exact this.2.1
           · exact hold e he
 
-theorem run_log {c : Cfg} (hg : c.Good) (h : List Ev) : ∀ (s : St), HistOK h → Inv c.clk s → LogOK s →
+theorem run_log {c : Cfg} (hg : c.Good) (h : List Ev) : ∀ (s : St), HistOK c.createNoneTest h → Inv c.createNoneTest c.clk s → LogOK s →
     LogOK (run c s h) := by
   induction h with
   | nil => intro s _ _ hl; exact hl
